@@ -207,8 +207,15 @@ func (mdb *memdb) deleteBodyID(bodyid uint64) {
 
 // add an annotation to the in-memory DB in batch mode assuming ids are sorted later
 func (mdb *memdb) addAnnotation(bodyid uint64, annotation NeuronJSON) {
+	if old, found := mdb.data[bodyid]; found {
+		// replaces an annotation already held: the id is listed once, and the fields of the old one leave the counts
+		for field := range old {
+			mdb.forgetField(field)
+		}
+	} else {
+		mdb.ids = append(mdb.ids, bodyid)
+	}
 	mdb.data[bodyid] = annotation
-	mdb.ids = append(mdb.ids, bodyid)
 	for field := range annotation {
 		mdb.fields[field]++
 	}
@@ -279,7 +286,14 @@ func (d *Data) loadFromKV(v dvid.VersionID, kvData kvType) {
 			continue
 		}
 
-		// a) Persist to storage first
+		// a) Decode: what cannot be read back as an annotation is not stored either
+		var annotation NeuronJSON
+		if err := json.Unmarshal(kv.V, &annotation); err != nil {
+			dvid.Errorf("Unable to decode annotation for bodyid %d, skipping: %v\n", bodyid, err)
+			continue
+		}
+
+		// b) Persist to storage
 		tk, err := NewTKey(key)
 		if err != nil {
 			dvid.Errorf("unable to encode neuronjson %q key %q, skipping: %v\n", d.DataName(), key, err)
@@ -290,20 +304,19 @@ func (d *Data) loadFromKV(v dvid.VersionID, kvData kvType) {
 			continue
 		}
 
-		// b) Add to in-memory annotations db
-		var annotation NeuronJSON
-		if err := json.Unmarshal(kv.V, &annotation); err != nil {
-			dvid.Errorf("Unable to decode annotation for bodyid %d, skipping: %v\n", bodyid, err)
-			continue
-		}
+		// c) Add to in-memory annotations db, which requests read while this import runs
+		mdb.mu.Lock()
 		mdb.addAnnotation(bodyid, annotation)
+		mdb.mu.Unlock()
 
 		numLoaded++
 		if numLoaded%1000 == 0 {
 			tlog.Infof("Loaded %d annotations into neuronjson instance %q", numLoaded, d.DataName())
 		}
 	}
+	mdb.mu.Lock()
 	sort.Slice(mdb.ids, func(i, j int) bool { return mdb.ids[i] < mdb.ids[j] })
+	mdb.mu.Unlock()
 	errored := numFromKV - numLoaded
 	tlog.Infof("Completed loading of %d annotations into neuronjson instance %q (%d skipped)",
 		numLoaded, d.DataName(), errored)
